@@ -289,6 +289,8 @@ type DataLoadContext struct {
 	DownSampling func(slotRange timeutil.SlotRange, seriesIdx uint16, fieldIdx int, getter encoding.TSDValueGetter)
 
 	PendingDataLoadTasks *atomic.Int32
+	// Reduced marks the aggregators of this context are reduced(shared by the copies of the context).
+	Reduced *atomic.Bool
 }
 
 // PrepareAggregatorWithoutGrouping prepares context for without grouping query.
